@@ -497,7 +497,7 @@ func m2(idx int64, r *rand.Rand) {
 }
 
 func TestCheck(t *testing.T) {
-	rt.Cases(420, 42000, func(idx int64) {
+	rt.Cases(1260, 63000, func(idx int64) {
 		r := rt.CaseRand(1, idx)
 		rt.Case()
 		switch m := idx % 21; {
